@@ -31,11 +31,12 @@ VARIABLES snd,      \* completed sends: sequence of [v, c, r, ok, p]   (c/r: cal
           lis,      \* per listener index: [st, cc, cr, dc, how, del, ended, mate]   st: "none" | "live" | "dropped"
           adr,      \* value -> payload address seen first (as a set of <<v, addr>>)
           parked, drv, cancelled, held, resv, churn,
+          lp,       \* per thread: <<call line, return line>> of its latest completed poll
           rw        \* [on: atomic operations are recorded in this run; open: threads that are, right now, between the update of
                     \*  used_streams_count and the end of the in-place rebuild of the live-listener list (create_stream_id /
                     \*  report_stream_dropped .. sync_vacant_and_used_streams)]
 
-vars == <<snd, cur, lis, adr, parked, drv, cancelled, held, resv, churn, rw>>
+vars == <<snd, cur, lis, adr, parked, drv, cancelled, held, resv, churn, lp, rw>>
 tvars == <<vars, l, bad>>
 
 On(name) == name \in Checks
@@ -45,13 +46,13 @@ LiveAt0(k) == [s \in Ls |-> IF s < k THEN [NoLis EXCEPT !.st = "live"] ELSE NoLi
 
 Init0 == /\ snd = <<>> /\ cur = [p \in Procs |-> NoCur] /\ lis = LiveAt0(0) /\ adr = {}
          /\ parked = [p \in Procs |-> FALSE] /\ drv = [p \in Procs |-> -1] /\ cancelled = 0 /\ held = 0 /\ resv = 0 /\ churn = 0
-         /\ rw = [on |-> FALSE, open |-> {}]
+         /\ rw = [on |-> FALSE, open |-> {}] /\ lp = [p \in Procs |-> <<0, 0>>]
 TraceInit == Init0 /\ TBInit
 
 TReset == /\ Ev.k = "reset"
           /\ snd' = <<>> /\ cur' = [p \in Procs |-> NoCur] /\ lis' = LiveAt0(Ev.x.streams) /\ adr' = {}
           /\ parked' = [p \in Procs |-> FALSE] /\ drv' = [p \in Procs |-> -1] /\ cancelled' = 0 /\ held' = 0 /\ resv' = 0 /\ churn' = 0
-          /\ rw' = [on |-> ("ops" \in DOMAIN Ev.x /\ Ev.x.ops), open |-> {}]
+          /\ rw' = [on |-> ("ops" \in DOMAIN Ev.x /\ Ev.x.ops), open |-> {}] /\ lp' = [p \in Procs |-> <<0, 0>>]
 
 SendOps == {"send", "send_with", "send_async", "send_reserved"}
 Range(s) == {s[i] : i \in 1..Len(s)}
@@ -68,7 +69,7 @@ TCall == /\ Ev.k = "call" /\ ~IsNopCall
          /\ churn' = IF Ev.x.op \in {"create", "create_if_room", "drop_stream"} THEN churn + 1 ELSE churn
          /\ cancelled' = IF Ev.x.op = "cancel_all" /\ cancelled = 0 THEN l ELSE cancelled
          /\ drv' = IF Ev.x.op = "drive" THEN [drv EXCEPT ![P] = Ev.x.s] ELSE drv
-         /\ UNCHANGED <<snd, adr, parked, held, resv, rw>>
+         /\ UNCHANGED <<snd, adr, parked, held, resv, rw, lp>>
 
 \* the send (completed or in progress) that carries value v, as [c, r, p, done, ok]
 SendOf(v) == IF \E i \in 1..Len(snd) : snd[i].v = v /\ snd[i].ok
@@ -129,6 +130,7 @@ TRet ==
             /\ held' = IF Ev.fn = "release" /\ Ev.x.ok THEN held - 1 ELSE IF Ev.fn = "release_all" THEN held - Ev.x.v ELSE held
             /\ cur' = IF cur[P].op = "running" THEN [cur EXCEPT ![P] = NoCur] ELSE cur
             /\ UNCHANGED <<snd, lis, adr, churn>>
+    /\ lp' = IF cur[P].op = "poll" THEN [lp EXCEPT ![P] = <<cur[P].c, l>>] ELSE lp
     /\ UNCHANGED <<parked, drv, cancelled, rw>>
 
 \* the window in which the live-listener list is inconsistent (only seen when atomic operations are recorded)
@@ -136,16 +138,16 @@ RwOpens == Ev.k = "op" /\ Ev.fld = "used_streams_count" /\ ((Ev.fn = "create_str
 RwCloses == Ev.k = "op" /\ Ev.fn = "sync_vacant_and_used_streams" /\ Ev.fld = "streams_lock" /\ Ev.o = "st"
 
 TNote == \/ /\ Ev.k = "park" /\ parked' = [parked EXCEPT ![P] = TRUE]
-            /\ UNCHANGED <<snd, cur, lis, adr, drv, cancelled, held, resv, churn, rw>>
+            /\ UNCHANGED <<snd, cur, lis, adr, drv, cancelled, held, resv, churn, rw, lp>>
          \/ /\ Ev.k = "unpark" /\ parked' = [parked EXCEPT ![P] = FALSE]
-            /\ UNCHANGED <<snd, cur, lis, adr, drv, cancelled, held, resv, churn, rw>>
+            /\ UNCHANGED <<snd, cur, lis, adr, drv, cancelled, held, resv, churn, rw, lp>>
          \/ /\ RwOpens
             /\ rw' = [rw EXCEPT !.open = @ \cup {P}]
             /\ cur' = [p \in Procs |-> IF cur[p].op = "send" THEN [cur[p] EXCEPT !.ch = TRUE] ELSE cur[p]]     \* every send in progress overlaps it
-            /\ UNCHANGED <<snd, lis, adr, parked, drv, cancelled, held, resv, churn>>
+            /\ UNCHANGED <<snd, lis, adr, parked, drv, cancelled, held, resv, churn, lp>>
          \/ /\ RwCloses
             /\ rw' = [rw EXCEPT !.open = @ \ {P}]
-            /\ UNCHANGED <<snd, cur, lis, adr, parked, drv, cancelled, held, resv, churn>>
+            /\ UNCHANGED <<snd, cur, lis, adr, parked, drv, cancelled, held, resv, churn, lp>>
          \/ /\ Ev.k \in {"op", "wake", "panic", "suspended"} /\ ~RwOpens /\ ~RwCloses /\ UNCHANGED vars
 
 TFinal == Ev.k = "final" /\ UNCHANGED vars
@@ -192,6 +194,12 @@ SplitBad(x) == \E s \in Ls : lis[s].how = "old" /\ lis[s].mate >= 0 /\
                  \/ (\E i \in Accepted : snd[i].r < lis[s].cc /\ lis[s].ended /\ snd[i].v \notin Range(lis[s].del))
                  \/ (\E i \in Accepted : snd[i].c > lis[s].cr /\ snd[i].v \in Range(lis[s].del))
 ParkedWithWork(x) == \E p \in Procs : parked[p] /\ drv[p] \in Ls /\ lis[drv[p]].st = "live" /\ Len(LeftOf(x, drv[p])) > 0
+\* a lost wake-up is "racing" when an event left waiting for a parked task was being sent while that task made its last poll (the wake
+\* decision of the send was taken from a queue length sampled before the task drained the queue); otherwise the event was sent entirely
+\* after the task had gone to sleep and still woke nobody
+RacingLost(x) == \E p \in Procs : /\ parked[p] /\ drv[p] \in Ls /\ lis[drv[p]].st = "live"
+                                  /\ \E i \in 1..Len(LeftOf(x, drv[p])) : LET so == SendOf(LeftOf(x, drv[p])[i]) IN
+                                         so.known /\ so.c < lp[p][2] /\ so.r > lp[p][1]
 ParkedAfterCancel == \E p \in Procs : parked[p] /\ drv[p] \in Ls /\ lis[drv[p]].st = "live" /\ (lis[drv[p]].cc = 0 \/ lis[drv[p]].cr < cancelled)
 
 FinalBad(x) ==
@@ -207,7 +215,7 @@ FinalBad(x) ==
     ELSE IF On("InvNoGaps") /\ Quiet /\ x.drained /\ Gap(x) THEN Tag("InvNoGaps", ~GapP(x, TRUE))
     ELSE IF On("InvSameTotalOrder") /\ OrderClash(x) THEN "InvSameTotalOrder"
     ELSE IF On("InvSplitPartitions") /\ Quiet /\ SplitBad(x) THEN "InvSplitPartitions"
-    ELSE IF On("InvNoLostWakeup") /\ Quiet /\ cancelled = 0 /\ ParkedWithWork(x) THEN "InvNoLostWakeup"
+    ELSE IF On("InvNoLostWakeup") /\ Quiet /\ cancelled = 0 /\ ParkedWithWork(x) THEN (IF RacingLost(x) THEN "InvNoLostWakeupRacing" ELSE "InvNoLostWakeup")
     ELSE IF On("InvCancelEndsStreams") /\ Quiet /\ cancelled # 0 /\ ParkedAfterCancel THEN "InvCancelEndsStreams"
     ELSE IF On("InvCapacityRestored") /\ x.probe >= 0 /\ x.probe # x.probe_expected THEN Tag("InvCapacityRestored", AnyChurned)
     ELSE ""
